@@ -163,6 +163,7 @@ def check_sub(cell, case, ctx):
     k0 = opcheck.read_result(op, r0)
     k1 = opcheck.read_result(op, r1)
     scale = R.scale_of(a, b)
+    q = opcheck.qualifiers(a, b)
 
     nontrivial = (sa != CART[da] or (sb is not None and sb != CART[db])) and opcheck.nonzero_components(a, b)
 
@@ -182,7 +183,7 @@ def check_sub(cell, case, ctx):
             return
         n = op.changed if op.changed is not None else len(ref_cart)
         if not opcheck.vec_close(k1[3], ref_cart, tol, scale, n):
-            ctx.fail("value", f"{op.name} {variant}: result {opcheck.fmt(k1[3])} (stored {k1[1]} {opcheck.fmt(k1[2])}) "
+            ctx.fail("value" + q, f"{op.name} {variant}: result {opcheck.fmt(k1[3])} (stored {k1[1]} {opcheck.fmt(k1[2])}) "
                      f"!= all-Cartesian result {opcheck.fmt(ref_cart)}; operands a={opcheck.fmt(a)} b={opcheck.fmt(b) if b else None} "
                      f"scalars={s_in}", op=op.name, variant=variant, backend=backend)
             return
@@ -198,7 +199,7 @@ def check_sub(cell, case, ctx):
                 return
     elif k0[0] == "bool":
         if k0[1] != k1[1]:
-            ctx.fail("bool", f"{op.name} {variant}: {k1[1]} but all-Cartesian signature gives {k0[1]}; a={opcheck.fmt(a)} "
+            ctx.fail("bool" + q, f"{op.name} {variant}: {k1[1]} but all-Cartesian signature gives {k0[1]}; a={opcheck.fmt(a)} "
                      f"b={opcheck.fmt(b) if b else None} scalars={s_in}", op=op.name, variant=variant, backend=backend)
             return
     else:
@@ -216,7 +217,7 @@ def check_sub(cell, case, ctx):
         else:
             ok = opcheck.close(x0, x1, tol, scale)
         if not ok:
-            ctx.fail("value", f"{op.name} {variant}: {opcheck.fmt(x1)} != all-Cartesian {opcheck.fmt(x0)}; a={opcheck.fmt(a)} "
+            ctx.fail("value" + q, f"{op.name} {variant}: {opcheck.fmt(x1)} != all-Cartesian {opcheck.fmt(x0)}; a={opcheck.fmt(a)} "
                      f"b={opcheck.fmt(b) if b else None} scalars={s_in}", op=op.name, variant=variant, backend=backend)
             return
     if nontrivial:
